@@ -65,6 +65,10 @@ func applyTextMode(e *tabula.Extractor, tm string) *tabula.Extractor {
 var sharedReaderViews atomic.Int64
 
 // view runs one facade API and returns its text rendering.
+// shownText is what a written string shows: the writer's strings are WinAnsi
+// bytes, of which only the section sign (0xA7) lies outside ASCII.
+func shownText(s string) string { return strings.ReplaceAll(s, "\xa7", "§") }
+
 // ghosts: path -> document spec, for files that carry an unreadable extra page.
 var ghosts sync.Map
 
@@ -226,7 +230,7 @@ func directCheck(c *fw.Ctx, pc *pdfCase) (verdict, bool) {
 		for fi, f := range fr {
 			found := -1
 			for ii, it := range pc.per[p] {
-				if !used[ii] && math.Abs(it.X-f.X) < 0.01 && math.Abs(it.Y-f.Y) < 0.01 && it.Text == f.Text {
+				if !used[ii] && math.Abs(it.X-f.X) < 0.01 && math.Abs(it.Y-f.Y) < 0.01 && shownText(it.Text) == f.Text {
 					found = ii
 					break
 				}
